@@ -28,7 +28,7 @@ use smallvec::{smallvec, SmallVec};
 
 use ast_grep_config::RuleCollection;
 use ast_grep_core::Pattern;
-use ast_grep_core::{Matcher, StrDoc};
+use ast_grep_core::{MatchStrictness, Matcher, StrDoc};
 use ast_grep_language::Language;
 
 use std::fs::read_to_string;
@@ -153,8 +153,14 @@ pub fn filter_file_pattern<'a>(
   let file_content = read_file(path)?;
   let grep = lang.ast_grep(&file_content);
   let do_match = |ast_grep: AstGrep, matcher: &'a Pattern<SgLang>| {
+    // the longest token of the pattern must occur in the file only when the strictness
+    // compares every token: ast/relaxed skip unnamed tokens and signature ignores text
+    let need_fixed = matches!(
+      matcher.strictness,
+      MatchStrictness::Cst | MatchStrictness::Smart
+    );
     let fixed = matcher.fixed_string();
-    if !fixed.is_empty() && !file_content.contains(&*fixed) {
+    if need_fixed && !fixed.is_empty() && !file_content.contains(&*fixed) {
       return None;
     }
     Some(MatchUnit {
